@@ -55,7 +55,7 @@ def finish_t(rep, results, step_kind="step"):
     return rep.finish(accumulate_t(rep, results, step_kind))
 
 
-def line_level_part(rep, specs, gran="line", shares=2, key="line_level_one_preemption"):
+def line_level_part(rep, specs, gran="line", shares=2, key="line_level_one_preemption", two=None):
     """Engine-L part of a check that is not otherwise an engine-T check: explore the given two-call scenarios with one
     pre-emption at every source line and report violations / coverage under `key`."""
     jobs = []
@@ -63,6 +63,11 @@ def line_level_part(rep, specs, gran="line", shares=2, key="line_level_one_preem
         gran, shares = "opcode", 8  # every bytecode of the package as a pre-emption point
     for sp in specs:
         jobs += tscen.line_level(sp, gran, shares)
+    # TWO pre-emptions at source-line granularity (the second at every event where another thread could run): thorough tier
+    # only, for the scenarios named in `two` (some 10^5 executions each)
+    for sp in specs:
+        if rep.tier == "thorough" and sp["name"] in (two or ()):
+            jobs += [dict(j, time_cap=2400) for j in tscen.line_level(sp, "line", 16, lbound=2)]
     results = run_scenarios(rep, jobs)
     sub = type("Sub", (), {})()
     sub.coverage = {}
